@@ -123,6 +123,11 @@ ANTICIPATED = [
     # names with tensor indices, submitted with the wrong case (the "did you mean" hint)
     ('A_{1}+1', 'UndefinedVariable'), ('t_{ij}^{k}*2', 'UndefinedVariable'), ('a_{1}+T_{IJ}^{k}', 'UndefinedVariable'),
     ('a_{1}+zz', 'UndefinedVariable'), ('F_{2}(1)', 'UndefinedFunction'),
+    # names reserved for the author: instructor-only variables and sibling inputs, also when the
+    # submission is character for character the author's own answer
+    ('@instructor:x*c', 'UndefinedVariable'), ('@instructor:c', 'UndefinedVariable'),
+    ('@instructor:x * c', 'UndefinedVariable'), ('@sibling:sibling_2+1', 'UndefinedVariable'),
+    ('@sibling:sibling_2 + 1', 'UndefinedVariable'),
     # (shape errors are not listed: whether they are raised or graded depends on options that
     # an author may have registered class-wide)
 ]
@@ -1029,7 +1034,15 @@ class Run(object):
         """An anticipated problem keeps its specific error class (debug off), whatever ran before."""
         m = self.lib.mitx
         text, want = ANTICIPATED[ev['case']]
-        if '_{' in text:
+        if text.startswith('@instructor:'):
+            text = text.split(':', 1)[1]
+            g = m.FormulaGrader(answers='x*c', variables=['x', 'c'], instructor_vars=['c'])
+            inp = text
+        elif text.startswith('@sibling:'):
+            text = text.split(':', 1)[1]
+            g = m.ListGrader(answers=['sibling_2+1', 'x'], subgraders=m.FormulaGrader(variables=['x']), ordered=True)
+            inp = [text, 'x']
+        elif '_{' in text:
             g = m.FormulaGrader(answers='a_{1}+T_{ij}^{k}', variables=['a_{1}', 'T_{ij}^{k}'],
                                 user_functions={'f_{2}': lambda x: x})
             inp = text
